@@ -26,7 +26,7 @@ RULE = (
     "non-trivial = some chosen layout is not plain row-major"
 )
 ASSUMPTIONS = ["layout semantics: machines/layout.py (addr = sum step*digit)", "the operand shape is exactly covered by the schedule's accesses except for the conv-like family (halo)"]
-BOUNDS = {"quick": dict(), "thorough": dict()}
+BOUNDS = {"quick": dict(), "thorough": dict(note="more (outer, inner) pairs incl. (5,8),(1,16),(4,2),(3,3); conv k up to 7; elementwise up to 17 tiles / 9x6")}
 CASE_TIMEOUT = 60
 EL = {8: "i8", 16: "i16", 32: "i32", 64: "i64"}
 
@@ -70,22 +70,23 @@ WIDTHS = [(8, 8, 32), (16, 16, 32), (8, 8, 8), (32, 32, 32), (64, 64, 64)]
 
 def space(tier):
     cases = []
-    for pm, pn, pk in itertools.product(PAIRS, repeat=3):
+    pairs = PAIRS + ([(5, 8), (1, 16), (4, 2), (3, 3)] if tier == "thorough" else [])
+    for pm, pn, pk in itertools.product(pairs, repeat=3):
         for order in itertools.permutations(range(3)):
             for w in WIDTHS if (pm, pn, pk).count((2, 8)) >= 1 or tier == "thorough" else WIDTHS[:2]:
                 for tiled in (True, False):
                     cases.append(("mm", (pm, pn, pk), order, w, tiled))
-    for k in (1, 2, 3):
-        for oo in (1, 2, 4):
-            for w in (8, 32, 64):
+    for k in (1, 2, 3) if tier == "quick" else (1, 2, 3, 4, 5, 7):
+        for oo in (1, 2, 4) if tier == "quick" else (1, 2, 3, 4, 5):
+            for w in (8, 32, 64) if tier == "quick" else (8, 16, 32, 64):
                 for tiled in (True, False):
                     cases.append(("conv", k, oo, w, tiled))
-    for n_outer in (1, 2, 3, 5):
+    for n_outer in (1, 2, 3, 5) if tier == "quick" else range(1, 18):
         for w in (8, 16, 32, 64):
             for tiled in (True, False):
                 cases.append(("ew1", n_outer, w, tiled))
-    for r in (1, 2, 3, 4):
-        for co in (1, 2, 3):
+    for r in (1, 2, 3, 4) if tier == "quick" else range(1, 10):
+        for co in (1, 2, 3) if tier == "quick" else range(1, 7):
             for trans in (0, 1, 2):
                 for w in (8, 32, 64):
                     for tiled in (True, False):
